@@ -116,7 +116,7 @@ def refOf (p : Poly) : Option RefPoly :=
   else if p.st.cUp && !p.st.gPend then some ⟨p.nnc, p.dim, consOf p.nnc p.cs.rows⟩
   else if p.st.gUp && !p.st.cPend then
     -- FM projection of the lifted generator system: only when it is small
-    if p.dim ≤ 2 || p.gs.rows.length ≤ (if p.nnc then 3 else 5) then
+    if (p.dim ≤ 1 && p.gs.rows.length ≤ 8) || p.gs.rows.length ≤ (if p.nnc then 3 else 5) then
       some ⟨p.nnc, p.dim, gensToCons p.dim (gensOf p.nnc p.gs.rows)⟩
     else none
   else if !p.st.cUp && !p.st.gUp then some (univ p.nnc p.dim)
@@ -124,7 +124,7 @@ def refOf (p : Poly) : Option RefPoly :=
 
 /-- `RefPoly.ofGens` when the projection is affordable -/
 def ofGensSmall (nnc : Bool) (n : Nat) (gs : List Gen) : Option RefPoly :=
-  if n ≤ 2 || gs.length ≤ (if nnc then 3 else 5) then some (RefPoly.ofGens nnc n gs) else none
+  if (n ≤ 1 && gs.length ≤ 8) || gs.length ≤ (if nnc then 3 else 5) then some (RefPoly.ofGens nnc n gs) else none
 
 def gensOfPoly (p : Poly) : Option (List Gen) :=
   if p.st.empty then some []
@@ -433,6 +433,7 @@ partial def loop (s : IO.FS.Stream) (maxRows : Nat) (resync : Bool) (h : HState)
   if line.isEmpty then return ()
   let t0 ← IO.monoMsNow
   let h' ← processLine line maxRows resync h
+  (← IO.getStdout).flush
   let t1 ← IO.monoMsNow
   if t1 - t0 > 3000 then IO.eprintln s!"slow {t1 - t0}ms {h.hid} {line.take 70}"
   loop s maxRows resync h'
